@@ -640,6 +640,15 @@ func runSchedCaseT(c *h.Ctx, r *h.Report, cs schedCase) (trace []int, disagreed 
 	}
 	if sr.dead {
 		r.Violate(h.Violation{Key: "C14:deadlock", What: fmt.Sprintf("no operation can make progress: every unfinished thread is waiting (%s)", strings.Join(sr.deadLabels, ", ")), Replay: rp})
+		for _, l := range sr.deadLabels {
+			if strings.Contains(l, "liveMutex") || strings.Contains(l, "outMutex") {
+				// a thread waits for ever for one of a subscriber's own mutexes: the subscriber is neither served nor cut
+				// off, whatever operation holds it (C13: a slow or dead subscriber is cut off, not starved)
+				r.Violate(h.Violation{Key: "C13:operation-blocked-forever-on-a-subscriber-mutex", What: "an operation waits for ever before " + l + " (every unfinished thread waits: " + strings.Join(sr.deadLabels, ", ") + ")", Replay: rp})
+
+				break
+			}
+		}
 		if sr.deadClose {
 			// C15: closing the hub ends every stream and returns — here the Close call itself waits for ever
 			r.Violate(h.Violation{Key: "C15:close-never-returns", What: fmt.Sprintf("Close is blocked for ever, with every other unfinished operation (%s): the streams it has not reached are never ended, the database is never released", strings.Join(sr.deadLabels, ", ")), Replay: rp})
@@ -680,6 +689,13 @@ func pairConfigs() []schedCase {
 			} {
 				out = append(out, schedCase{Kind: kind, Cap: capacity, Phases: []schedPhase{{Subs: sub, Pre: pre, Ops: ops}}})
 			}
+			if capacity == 1 {
+				// the buffer is already full: the next publication overflows it (the transport ends the stream) while the
+				// client side ends it too
+				full := []schedOp{{Op: "add", Sub: 0}, d(1)}
+				out = append(out, schedCase{Kind: kind, Cap: capacity, Phases: []schedPhase{{Subs: sub, Pre: full, Ops: []schedOp{d(2), {Op: "disconnect", Sub: 0}}}}},
+					schedCase{Kind: kind, Cap: capacity, Phases: []schedPhase{{Subs: sub, Pre: full, Ops: []schedOp{{Op: "disconnect", Sub: 0}, d(2)}}}})
+			}
 			// a second subscriber behind the first: what the first one's end does to the fan-out
 			out = append(out, schedCase{Kind: kind, Cap: capacity, Phases: []schedPhase{{Subs: two, Pre: pre2, Ops: []schedOp{d(1), {Op: "disconnect", Sub: 0}}}}})
 			req := "1"
@@ -690,6 +706,12 @@ func pairConfigs() []schedCase {
 				// a registration with the id of the last stored update, racing a publication, right after a publication
 				// whose write transaction failed
 				out = append(out, schedCase{Kind: kind, Cap: capacity, Phases: []schedPhase{{Pre: []schedOp{d(1), {Op: "dispatchfail"}}, Subs: []schedSub{{Topics: []int{0}, Req: req}}, Ops: []schedOp{{Op: "add", Sub: 0}, d(2)}}}})
+			}
+			if kind == "bolt" {
+				// a registration asking for an id that is not in the history (the whole history is scanned, the
+				// "can't find" branch is taken inside the read transaction), racing Close
+				out = append(out, schedCase{Kind: kind, Cap: capacity, Phases: []schedPhase{{Pre: []schedOp{d(1)}, Subs: []schedSub{{Topics: []int{0}, Req: "77"}}, Ops: []schedOp{{Op: "add", Sub: 0}, {Op: "close"}}}}},
+					schedCase{Kind: kind, Cap: capacity, Phases: []schedPhase{{Pre: []schedOp{d(1)}, Subs: []schedSub{{Topics: []int{0}, Req: "77"}}, Ops: []schedOp{{Op: "close"}, {Op: "add", Sub: 0}}}}})
 			}
 			out = append(out, schedCase{Kind: kind, Cap: capacity, Phases: []schedPhase{{Pre: []schedOp{d(1)}, Subs: []schedSub{{Topics: []int{0}, Req: req}}, Ops: []schedOp{{Op: "add", Sub: 0}, {Op: "disconnect", Sub: 0}}}}},
 				schedCase{Kind: kind, Cap: capacity, Phases: []schedPhase{{Pre: []schedOp{d(1)}, Subs: []schedSub{{Topics: []int{0}, Req: req}}, Ops: []schedOp{{Op: "add", Sub: 0}, {Op: "close"}}}}})
